@@ -944,7 +944,57 @@ fn gen_crt(rng: &mut Rng, fib: &[i128]) -> (i128, i128, i128, i128) {
     (a1, m1, a2, m2)
 }
 
+/// crt on a narrower type with moduli that share a large factor: the product m1*m2 does not fit the type, but the lcm, the
+/// Bezout coefficients (at most m/g in magnitude), their multiple by (a2 - a1)/g (at most (m/g)^2) and the solution all do
+fn narrow_crt_case<T: STy>(rng: &mut Rng, cx: &mut Cx) {
+    let max = T::MAXMAG as i128;
+    let cap = B.min(max);
+    for _ in 0..40 {
+        // m1 = g*p, m2 = g*q with small cofactors
+        let pmax = 1 + below(rng, 64).min((max as f64).sqrt() as i128 / 4);
+        let (p, q) = (1 + below(rng, pmax), 1 + below(rng, pmax));
+        let gmax = cap / p.max(q);
+        if gmax < 2 {
+            continue;
+        }
+        let g = match rng.below(3) {
+            0 => gmax,
+            1 => 1i128 << (63 - (gmax as u64).leading_zeros()),
+            _ => 1 + below(rng, gmax),
+        };
+        let (m1, m2) = (g * p, g * q);
+        let gg = own_gcd(m1 as u128, m2 as u128) as i128;
+        let l = m1 / gg * m2;
+        let r = m1.max(m2) / gg;
+        if !(l <= max / 2 && r * r * 4 <= max && m1 <= cap && m2 <= cap) {
+            continue;
+        }
+        let x = match rng.below(3) {
+            0 => l - 1 - below(rng, l.min(4)),
+            1 => below(rng, l.min(8)),
+            _ => below(rng, l),
+        };
+        let (a1, mut a2) = (x % m1, x % m2);
+        if rng.chance(1, 5) {
+            a2 = (a2 + 1) % m2;
+        }
+        if m1.checked_mul(m2).map_or(true, |pr| pr > max) {
+            cx.rep.inc("crt_narrow_type_product_exceeds_type");
+        }
+        check_crt::<T>(a1, m1, a2, m2, cx);
+        return;
+    }
+}
+
 fn sampled_case(rng: &mut Rng, fib: &[i128], cx: &mut Cx) {
+    if rng.chance(1, 12) {
+        match rng.below(3) {
+            0 => narrow_crt_case::<i32>(rng, cx),
+            1 => narrow_crt_case::<i16>(rng, cx),
+            _ => narrow_crt_case::<i64>(rng, cx),
+        }
+        return;
+    }
     match rng.weighted(&[12, 10, 40, 38]) {
         0 => {
             let (a, b) = gen_signed_pair(rng, fib, true);
